@@ -56,8 +56,9 @@ class World:
     """the server: active groups (procs, in priority order), the configuration file (config: group -> process
     names), active groups whose configuration differs (changed), mood"""
 
-    def __init__(self, procs=(), config=None, changed=(), shutting=False, mainlog='supervisord started\n', uncreatable=()):
+    def __init__(self, procs=(), config=None, changed=(), shutting=False, mainlog='supervisord started\n', uncreatable=(), api=None):
         self.uncreatable = list(uncreatable)    # configured groups that cannot be created (addProcessGroup -> FAILED)
+        self.api = api                          # the API version the daemon reports (None: the client's own)
         self.procs = list(procs)
         self.config = {g: list(v) for g, v in (config or {}).items()}
         self.changed = list(changed)
@@ -68,12 +69,12 @@ class World:
     # ---- (de)serialisation for replay files
     def to_json(self):
         return {'procs': [p.to_json() for p in self.procs], 'config': self.config, 'changed': list(self.changed),
-                'shutting': self.shutting, 'mainlog': self.mainlog, 'uncreatable': list(self.uncreatable)}
+                'shutting': self.shutting, 'mainlog': self.mainlog, 'uncreatable': list(self.uncreatable), 'api': self.api}
 
     @classmethod
     def from_json(cls, d):
         return cls([Proc(*p) for p in d['procs']], d['config'], d['changed'], d['shutting'], d['mainlog'],
-                   d.get('uncreatable', ()))
+                   d.get('uncreatable', ()), d.get('api'))
 
     def copy(self):
         return copy.deepcopy(self)
@@ -230,7 +231,7 @@ class World:
         if self.shutting:
             return fault(F['SHUTDOWN_STATE'])
         if meth == 'getVersion':
-            return ('S', B.API)
+            return ('S', B.API if self.api is None else self.api)
         if meth == 'getSupervisorVersion':
             return ('S', '4.3.0')
         if meth == 'getPID':
@@ -379,6 +380,16 @@ def spec(action, arg, w):
                 it.after_fault = True
             e.check_extra = True
             e.lost_kind = 'world-names-lost-after-fault:' + ('add:SHUTDOWN_STATE' if action == 'add' else action)
+        return e
+    if w.api is not None and w.api != B.API and action in UPCHECKED:
+        # the daemon speaks another API version (older OR newer): the mismatch line naming the remote version, a non-zero
+        # exit status, and the action is not carried out (the world stays as it is)
+        e.fail()
+        e.need_error = True
+        if action != 'fg':
+            e.items = [Item('err', 'Sorry', contains=['API version', w.api], what='API version mismatch: the daemon reports %r' % w.api)]
+        else:
+            e.check_extra = False
         return e
     if action in ('start', 'stop', 'restart', 'signal', 'clear'):
         sig = None
@@ -680,6 +691,10 @@ def fixed_worlds():
                              {'web': ['worker_0', 'worker_1'], 'api': ['worker_0', 'worker_1'], 'worker_0': ['x']})),
         ('uncreatable', World(mix(), dict(cfg, sock=['sock'], new=['new'], zed=['zed']), uncreatable=['sock', 'zed'])),
         ('shutting', World(mix(), cfg, shutting=True)),
+        # the "wrong API version" server state, on both sides of the client's version (compared as strings '10.0' < '3.0')
+        ('api-older', World(mix(), cfg, api='2.0')),
+        ('api-newer', World(mix(), cfg, api='3.1')),
+        ('api-newer-string-lower', World(mix(), cfg, api='10.0')),
     ]
     return res
 
@@ -779,7 +794,8 @@ def random_world(rng):
             config[g] = [g]
     unc = [g for g in config if rng.random() < 0.12]
     return World(procs, config, changed, shutting=rng.random() < 0.04,
-                 mainlog=rng.choice(['main\n', 'main\n', None]), uncreatable=unc)
+                 mainlog=rng.choice(['main\n', 'main\n', None]), uncreatable=unc,
+                 api=rng.choice(_B().WRONG_API) if rng.random() < 0.05 else None)
 
 
 def random_line(rng, w):
